@@ -157,7 +157,10 @@ def run(P, rep, tier):
                        'what it calls in the driver role, so a crash of the front end cannot take the process that owns the temporaries with it (R14.10); with one of the mode flags -E/-M/-S/-c set and everything else '
                        '(other options, option lists, the kind of the input) open, no path of main starts a stage the mode excludes (R14.11); in the launcher the driver may own one more child than the one it started '
                        '(inherited through exec): the stage it started must have been reaped, and its own status decided on, before the launcher returns (R14.4); functions explored on their own '
-                       '(temp creator, launchers, stage functions) are decided for every state of the option lists, not only the empty one. '
+                       '(temp creator, launchers, stage functions) are decided for every state of the option lists, not only the empty one; '
+                       'on every path of the function that owns a stdio stream (helpers that take the stream interpreted with it) a read that fails - with a zero or a short count - and a write that fails - before the stream is '
+                       'examined, in fflush() or in the flush inside fclose() - ends the process with a non-zero status or is reported to callers that do (R14.14, R14.15); '
+                       'R14.8 names cover the shapes of a path (dots and ./.. components in the directory part, base names without suffix). '
                        'Does not decide behaviour under real kill points or real concurrent schedules; '
                        'temp-name uniqueness is decided only as "names come from mkstemp".')
     rep.assumptions += ['wait status encoding of Linux/glibc (low 7 bits signal, bit 7 core, bits 8-15 exit code)',
@@ -182,6 +185,9 @@ def run(P, rep, tier):
                         'R14.12: a wait for an existing child can fail in two ways the environment decides: -1/EINTR (child still running; explored once per path) and, when the driver was started with SIGCHLD ignored '
                         '(the disposition survives exec) and no reachable call gives SIGCHLD another disposition, -1/ECHILD after the kernel reaped the child (no status written); errno is one cell per process, '
                         'written by the modelled wait calls only',
+                        'R14.14 / R14.15: stdio as ISO C specifies it - a read after end of file or error delivers nothing; ferror/feof report the flags; the data of an output stream reaches the file in fflush() or, '
+                        'when nothing flushed before, inside fclose(); a flush that was checked leaves nothing for fclose() to write (failures of close(2) itself are not modelled); every stream opened for writing has '
+                        'buffered data; at most two reads deliver data before the input ends or fails; memory streams do not fail; a `for (;;)` loop is followed for three iterations',
                         'R14.13: decided structurally per function and stream variable (no path sensitivity): ferror/fflush/fclose on the variable inside an if-condition whose branch returns or ends the process, '
                         'in the function itself or in a program function it passes the stream to; standard output closed at exit is not covered']
     cg = L.CallGraph(P)
@@ -199,8 +205,9 @@ def run(P, rep, tier):
              ('R14.11', lambda: r1411(P, u, rep, cg, facts)),
              ('R14.7', lambda: r147(P, rep, cg)),
              ('R14.8', lambda: r148(P, u, rep, cg, facts)),
-             ('R14.9', lambda: r149(P, rep, cg, reach_main)),
-             ('R14.13', lambda: r1413(P, rep, cg, reach_main))]
+             ('R14.9', lambda: r149(P, rep, cg, reach_main, facts)),
+             ('R14.13', lambda: r1413(P, rep, cg, reach_main)),
+             ('R14.14/15', lambda: r14_stream_paths(P, rep, cg, reach_main, facts))]
     for name, f in steps:
         t0 = time.time()
         f()
@@ -1347,6 +1354,18 @@ def _stem(path):
     return b[:b.rfind('.')] if '.' in b else b
 
 
+def _beside(path, suffix):
+    """path with the last suffix of its base name replaced (appended when the base name has none), directory part kept"""
+    d, sep, b = path.rpartition('/')
+    return d + sep + (b[:b.rfind('.')] if '.' in b else b) + suffix
+
+
+# shapes of a path: a dot in the directory part but none in the base name, `.` / `..` components, absolute, no directory
+_O_SHAPES = [('dotdir-plain', 'bld.x86/prog'), ('parent-plain', '../bin/tool'), ('cwd-plain', './prog'), ('dotdirs-plain', 'a.b/c.d/out'),
+             ('abs-dotdir-plain', '/abs.d/out'), ('plain', 'prog'), ('parent-suffix', '../bin.v1/tool.o')]
+_IN_SHAPES = [('dotdir-plain', 'sub.d/plain'), ('parent', '../src.d/unit.v1.c'), ('cwd', './unit.c'), ('plain', 'unit')]
+
+
 def _zero_statics(u, over):
     """file-scope variables without initialiser are zero (records: all-zero objects); `over` = the command line"""
     glob = {}
@@ -1524,6 +1543,12 @@ _CMDLINES = [
     ('c-Xlinker', ['-c'], ['-Xlinker', '--as-needed', _C1], [_stem(_C1) + '.o'], ['cc1', 'as']),
     ('link-lib-Wl', [], [_C1, '-lm', '-Wl,-z,now'], ['a.out'], ['cc1', 'as', 'ld']),
     ('link+MD-lib', ['-MD'], [_C1, '-lm'], ['a.out'], ['cc1', 'as', 'ld']),
+    # shapes of the paths: dots and `.` / `..` components of a directory part are not suffixes, a base name may have none
+    ('c-xc-dotdir-plain', ['-c', '-xc'], ['sub.d/plain'], ['plain.o'], ['cc1', 'as']),
+    ('S-parent-dir', ['-S'], ['../src.d/unit.v1.c'], ['unit.v1.s'], ['cc1']),
+    ('c-cwd-prefix', ['-c'], ['./unit.c', '../unit2.c'], ['unit.o', 'unit2.o'], ['cc1', 'as', 'cc1', 'as']),
+    ('link+o-dotdir-plain', ['-o', 'bld.x86/prog'], [_C1], ['bld.x86/prog'], ['cc1', 'as', 'ld']),
+    ('c+MD+o-parent-plain', ['-c', '-MD', '-o', '../bin/tool'], [_C1], ['../bin/tool'], ['cc1', 'as']),
 ]
 
 
@@ -1688,6 +1713,12 @@ def _r148_cc1(P, u, rep, cg):
         # the dependency file named after `-o` lies beside that output (only the last suffix is replaced, the directory stays)
         ('MD+o-dir', {'opt_MD': 1, 'opt_o': 'obj.d/out.v2.o'}, [asm, 'obj.d/out.v2.d']),
     ]
+    # ... for every shape a path can have: the suffix that is replaced is the last suffix of the BASE NAME (none: the new one is
+    # appended), dots and `.` / `..` components of the directory part are not suffixes; the input-derived name drops the directory
+    for tag, o in _O_SHAPES:
+        scenarios.append(('MD+o-' + tag, {'opt_MD': 1, 'opt_o': o}, [asm, _beside(o, '.d')]))
+    for tag, i in _IN_SHAPES:
+        scenarios.append(('MD-in-' + tag, {'opt_MD': 1, 'base_file': i}, [asm, _stem(i) + '.d']))
     w = _where(u.fn('cc1'))
     for sc, opts, expect in scenarios:
         key0 = '%s:cc1:%s' % (U, sc)
@@ -1806,6 +1837,11 @@ _CC1_CMDLINES = [
     ('S+MMD+MF', ['-S', '-MMD', '-MF', 'deps.v1.mk'], _C1, _stem(_C1) + '.s', [_stem(_C1) + '.s', 'deps.v1.mk']),
     ('link+MD+MT', ['-MD', '-MT', 'tgt.v1'], _C1, _ASM_T, [_ASM_T, _stem(_C1) + '.d']),
     ('c+MD+o-dir', ['-MD', '-c', '-o', 'obj.d/out.v2.o'], _C1, _ASM_T, [_ASM_T, 'obj.d/out.v2.d']),
+    ('link+MD+o-dotdir-plain', ['-MD', '-o', 'bld.x86/prog'], _C1, _ASM_T, [_ASM_T, 'bld.x86/prog.d']),
+    ('c+MMD+o-parent-plain', ['-MMD', '-c', '-o', '../bin/tool'], _C1, _ASM_T, [_ASM_T, '../bin/tool.d']),
+    ('link+MD+o-cwd-plain', ['-MD', '-o', './prog'], _C1, _ASM_T, [_ASM_T, './prog.d']),
+    ('c+MD-xc-dotdir-plain', ['-MD', '-c', '-xc'], 'sub.d/plain', _ASM_T, [_ASM_T, 'plain.d']),
+    ('S+MD-parent-dir', ['-MD', '-S'], '../src.d/unit.v1.c', 'unit.v1.s', ['unit.v1.s', 'unit.v1.d']),
 ]
 
 
@@ -1864,6 +1900,7 @@ def r1413(P, rep, cg, reach_main):
     terminators = set(L.HARD_EXIT) | set(L.SOFT_EXIT) | set(L.ERROR_FNS)
     # ---- helpers that examine a stream parameter: name -> set of parameter indexes
     examiners = {}
+    keepers = {}        # ... that look at the error state of a stream parameter and keep the answer in a value
     for fname, defs in cg.defs.items():
         for (cu, fd) in defs:
             try:
@@ -1871,15 +1908,20 @@ def r1413(P, rep, cg, reach_main):
             except Exception:
                 params = []
             for i, pd in enumerate(params or []):
-                if _is_file_ptr(pd.dtype or pd.type) and _stream_checked_in(fd, pd.id, terminators) == 'yes':
-                    examiners.setdefault(fname, set()).add(i)
+                if _is_file_ptr(pd.dtype or pd.type):
+                    r_ = _stream_checked_in(fd, pd.id, terminators)
+                    if r_ == 'yes':
+                        examiners.setdefault(fname, set()).add(i)
+                    elif r_ == 'value-kept':
+                        keepers.setdefault(fname, set()).add(i)
 
-    def handed_to_examiner(fd, vid):
+    def handed_to_examiner(fd, vid, table=None):
+        table = examiners if table is None else table
         for c in fd.walk():
-            if c.kind == 'CallExpr' and c.callee() in examiners:
+            if c.kind == 'CallExpr' and c.callee() in table:
                 for i, a in enumerate(c.args()):
                     b = a.strip_all()
-                    if i in examiners[c.callee()] and b.kind == 'DeclRefExpr' and b.ref_id == vid:
+                    if i in table[c.callee()] and b.kind == 'DeclRefExpr' and b.ref_id == vid:
                         return True
         return False
     # ---- read side
@@ -1901,6 +1943,13 @@ def r1413(P, rep, cg, reach_main):
             r = _stream_checked_in(fd, b.ref_id, terminators)
             if r == 'no' and handed_to_examiner(fd, b.ref_id):
                 r = 'yes'
+            if r != 'yes' and b.ref_kind == 'ParmVarDecl' and prim in L.READ_RESULT:
+                # the stream belongs to a caller: R14.14 decides it on the paths of the function that owns it (or is undecided there)
+                rep.ob('R14.13', key + '-stream-owned-by-caller', True, '', where=_where(call, cu.name))
+                continue
+            if r == 'value-kept' and prim in L.READ_RESULT:
+                rep.ob('R14.13', key + '-error-state-kept-in-a-value', True, '', where=_where(call, cu.name))       # what is done with the value: R14.14, on paths
+                continue
             if r == 'value-kept':
                 rep.undecided('R14.13', key + '-error-state-kept-in-a-value', '%s reads with %s() and stores / loops on the error state of the stream: who decides on it is not followed' % (caller, prim), where=_where(call, cu.name))
                 continue
@@ -1947,8 +1996,10 @@ def r1413(P, rep, cg, reach_main):
                 if r != 'yes' and handed_to_examiner(fd, vid):
                     r = 'yes'
                 key = '%s:%s:stream-from-%s' % (cu.name, fname, opener)
+                if r != 'yes' and handed_to_examiner(fd, vid, keepers):
+                    r = 'value-kept'
                 if r == 'value-kept':
-                    rep.undecided('R14.13', key + '-error-state-kept-in-a-value', '%s stores / loops on the error state of the stream it got from %s(): who decides on it is not followed' % (fname, opener), where=_where(src, cu.name))
+                    rep.ob('R14.13', key + '-error-state-kept-in-a-value', True, '', where=_where(src, cu.name))       # what is done with the value: R14.15, on paths
                     continue
                 rep.ob('R14.13', key + ('-write-errors-examined' if r == 'yes' else '-write-errors-never-examined'), r == 'yes',
                        '%s (%s) writes a file through the stream it got from %s() and returns without ever examining the error state of that stream (no ferror(), result of fflush()/fclose() unused): '
@@ -1959,13 +2010,352 @@ def r1413(P, rep, cg, reach_main):
 
 
 
+# ============================================================ R14.14 / R14.15 ===
+# The same clause as R14.13, decided over PATHS: R14.13 only asks whether the error state of a stream is looked at somewhere in
+# the function.  Here the function that owns the stream is interpreted with the stdio model of lib_c14 (the environment decides
+# for every read: data / end of file / error, with a zero or a short count; for buffered output: the flush inside fflush - else
+# inside fclose - works or fails, an earlier write may have failed already), helpers of the same unit that take a FILE * are
+# interpreted with it.  A path on which the stream FAILED must not end like a path on which everything worked.
+def _file_param_fns(cu, terminators):
+    out = set()
+    for f in cu.functions:
+        if f in terminators or f in NORETURN:
+            continue
+        try:
+            ps = cu.params(f)
+        except Exception:
+            ps = []
+        if any(_is_file_ptr(p_.dtype or p_.type) for p_ in ps or []):
+            out.add(f)
+    return out
+
+
+def _stream_roots(cg, reach_main, cu, H, var, depth=0):
+    """functions from which the stream denoted by the variable reference `var` inside H is owned: H when it is a local or a
+    file-scope variable, the callers (same unit) when it is a parameter of H.  -> (set of (root, frozenset(chain)), why-undecided)"""
+    if var.ref_kind != 'ParmVarDecl':
+        return {(H, frozenset([H]))}, None
+    if depth >= 3:
+        return set(), 'the stream is passed down more than three levels'
+    try:
+        idx = [p_.id for p_ in cu.params(H)].index(var.ref_id)
+    except (ValueError, Exception):
+        return set(), 'the stream parameter of %s was not found' % H
+    if H in cg.refs and any(f in reach_main for (_, f, _) in cg.refs[H]):
+        return set(), 'the address of %s is taken' % H
+    roots = set()
+    for (cu2, caller, call) in cg.sites.get(H, ()):
+        if caller not in reach_main:
+            continue
+        if cu2 is not cu:
+            return set(), '%s is called from another unit (%s)' % (H, cu2.name)
+        a = call.args()
+        b = a[idx].strip_all() if len(a) > idx else None
+        if b is None or b.kind != 'DeclRefExpr' or b.ref_id is None:
+            return set(), '%s is handed a stream that is not a plain variable in %s' % (H, caller)
+        r, why = _stream_roots(cg, reach_main, cu, caller, b, depth + 1)
+        if why:
+            return set(), why
+        roots |= set((root, chain | frozenset([H])) for (root, chain) in r)
+    return roots, None
+
+
+def _explore_streams(P, cg, cu, root, interp_fns, terminators):
+    opaque = [f for f in cg.defs if f != root and f not in interp_fns]
+    glob = _lazy_record_globals(cu, L.std_stream_globals())
+    models = L.stream_models()
+    it = L.make_interp(P, cu, opaque=opaque, extra_models=models, globals_=glob, loop_limit=1)
+    it.forever_limit = 3
+    L.slice_loops(it, cu, terminators | set(models) | set(interp_fns))
+    return it.explore(root, lambda ctx: [], max_paths=6000)
+
+
+def _failure_verdict(failed, good):
+    """failed / good: [(ctx, out)].  -> ('fatal', None) | ('reported', constant) | ('dropped', (ctx, out)) | ('undecided', why)"""
+    rets = []
+    for ctx, out in failed:
+        if out[0] == 'noreturn':
+            if not _nonzero_exit(out):
+                return 'dropped', (ctx, out)
+            continue
+        rets.append((ctx, out))
+    if not rets:
+        return 'fatal', None
+    vals = set()
+    for ctx, out in rets:
+        v = out[1]
+        if isinstance(v, bool):
+            v = int(v)
+        if not isinstance(v, int):
+            return 'dropped', (ctx, out)
+        vals.add(v)
+    if len(vals) != 1:
+        return 'dropped', rets[0]
+    fv = vals.pop()
+    for ctx, out in good:
+        if out[0] == 'ret':
+            v = out[1]
+            v = int(v) if isinstance(v, bool) else v
+            if isinstance(v, int) and v == fv:
+                return 'dropped', [r for r in rets][0]
+            if isinstance(v, View):
+                return 'undecided', 'the successful return value may or may not equal the failure value %r' % (fv,)
+    return 'reported', fv
+
+
+def _escaping_streams(fd):
+    """does a FILE * variable of the function leave it other than as a call argument (stored, returned)?"""
+    for n in fd.walk():
+        if n.kind != 'DeclRefExpr' or not _is_file_ptr(n.dtype or n.type) or n.ref_kind not in ('VarDecl', 'ParmVarDecl'):
+            continue
+        prev, q = n, n.parent
+        while q is not None and q.kind in ('ImplicitCastExpr', 'ParenExpr', 'CStyleCastExpr'):
+            prev, q = q, q.parent
+        if q is None:
+            continue
+        if q.kind in ('ReturnStmt', 'InitListExpr'):
+            return True
+        if q.kind == 'BinaryOperator' and q.opcode == '=' and len(q.inner) == 2 and prev is q.inner[1]:
+            lhs = q.inner[0].strip_all()
+            if not (lhs.kind == 'DeclRefExpr' and lhs.ref_kind == 'VarDecl' and lhs.ref_name not in ('stdin', 'stdout', 'stderr')):
+                return True
+            # a local FILE * copy is followed by value; a file-scope variable is a store
+            d = fd
+            if not any(v.kind == 'VarDecl' and v.id == lhs.ref_id for v in d.walk()):
+                return True
+    return False
+
+
+WRITE_PRIMS = ('fwrite', 'fwrite_unlocked', 'fprintf', 'vfprintf', 'fputs', 'fputc', 'putc', 'fputs_unlocked', 'fputc_unlocked', 'putc_unlocked')
+
+
+def _write_results_used(fd):
+    """stdio write calls of the function whose result is used (a program may check every write instead of asking ferror())"""
+    used = set()
+    for c in fd.walk():
+        if c.kind != 'CallExpr' or c.callee() not in WRITE_PRIMS:
+            continue
+        prev, q = c, c.parent
+        while q is not None and q.kind in ('ParenExpr', 'ImplicitCastExpr'):
+            prev, q = q, q.parent
+        if q is None or q.kind in ('CompoundStmt', 'LabelStmt', 'CaseStmt', 'DefaultStmt'):
+            continue
+        if q.kind == 'CStyleCastExpr' and (q.dtype or q.type) == 'void':
+            continue
+        if q.kind in ('IfStmt', 'WhileStmt', 'SwitchStmt') and prev is not q.inner[0]:
+            continue
+        if q.kind == 'DoStmt' and prev is q.inner[0]:
+            continue
+        if q.kind == 'ForStmt':
+            continue        # (init / increment / body position; a call as the loop condition is not a pattern worth the precision)
+        used.add(c.callee())
+    return used
+
+
+def r14_stream_paths(P, rep, cg, reach_main, facts):
+    rep.rule('R14.14', 'on every path of the function that owns an input stream, a read that FAILS (error flag set; fread with a zero or a short count, fgets NULL, getc EOF, getline -1) ends the process with a non-zero '
+                       'status or makes the function return a failure constant that none of its successful paths returns and that every caller treats as a failure (R14.9): a read error is never taken for the end of the file, '
+                       'whichever way the loop is left', floor=1)
+    rep.rule('R14.15', 'on every path of a function that owns a stream opened for writing a file, a failed write - an earlier write that set the error flag, the flush of the buffered data in fflush(), or that flush inside '
+                       'fclose() when nothing flushed before - ends the process with a non-zero status (or is reported to callers that do): the result of the call that really writes the data is examined, and the '
+                       'function does not return with data still in the buffer of a stream nobody will examine', floor=6)
+    terminators = set(L.HARD_EXIT) | set(L.SOFT_EXIT) | set(L.ERROR_FNS) | {'__assert_fail'}
+    chain_work = []
+    explored = {}
+
+    def paths_of(cu, root, interp):
+        k = (cu.name, root, frozenset(interp))
+        if k not in explored:
+            try:
+                explored[k] = _explore_streams(P, cg, cu, root, interp, terminators)
+            except AnalysisBroken as e:
+                explored[k] = str(e)
+        return explored[k]
+
+    def all_good(ctx):
+        st = L.proc_state(ctx)
+        return not st.get('open_failed') and not st.get('other_stream_failed') and not any(r['rfail'] or r['wfail'] for r in L.streams_of(ctx))
+
+    # ---------------------------------------------------------------- read side
+    n_read = 0
+    seen_roots = set()
+    for prim, (idx, _) in sorted(L.READ_RESULT.items()):
+        for (cu, H, call) in cg.sites.get(prim, ()):
+            if H not in reach_main:
+                continue
+            a = call.args()
+            b = a[idx].strip_all() if len(a) > idx else None
+            if b is None or b.kind != 'DeclRefExpr' or b.ref_id is None:
+                continue            # (R14.13 reports it)
+            roots, why = _stream_roots(cg, reach_main, cu, H, b)
+            if why:
+                rep.undecided('R14.14', '%s:%s:%s-owner-of-stream' % (cu.name, H, prim), 'who owns the stream %s reads with %s() is not decided: %s' % (H, prim, why), where=_where(call, cu.name))
+                continue
+            for root, chain in sorted(roots, key=lambda r: r[0]):
+                if (cu.name, root, prim) in seen_roots:
+                    continue
+                seen_roots.add((cu.name, root, prim))
+                interp = (_file_param_fns(cu, terminators) | set(chain)) - {root}
+                ps = paths_of(cu, root, interp)
+                key0 = '%s:%s:%s' % (cu.name, root, prim)
+                w = _where(cu.fn(root), cu.name)
+                if isinstance(ps, str):
+                    rep.undecided('R14.14', key0 + '-interpretation', ps, where=w)
+                    continue
+                n_read += 1
+                kinds = {}
+                for ctx, out in ps:
+                    for r in L.streams_of(ctx):
+                        if r['rfail'] and r['rfail'][0] == prim:
+                            kinds.setdefault(r['rfail'][1], []).append((ctx, out))
+                good = [(ctx, out) for ctx, out in ps if all_good(ctx)]
+                if not kinds:
+                    rep.undecided('R14.14', key0 + '-no-failing-read-explored', 'no explored path of %s reaches a %s() on a stream the model follows' % (root, prim), where=w)
+                    continue
+                if not any(out[0] == 'ret' for ctx, out in good):
+                    rep.undecided('R14.14', key0 + '-no-successful-path', 'no explored path of %s returns after reads that all worked' % root, where=w)
+                    continue
+                for kind, failed in sorted(kinds.items()):
+                    verdict, info = _failure_verdict(failed, good)
+                    k = '%s-error-with-%s' % (key0, kind)
+                    if verdict == 'undecided':
+                        rep.undecided('R14.14', k, info, where=w)
+                    elif verdict == 'fatal':
+                        rep.ob('R14.14', k + '-is-fatal', True, '', where=w)
+                    elif verdict == 'reported':
+                        rep.ob('R14.14', k + '-reported-to-caller', True, '', where=w, facts={'failure value': repr(info)})
+                        chain_work.append((root, info))
+                    else:
+                        ctx, out = info
+                        shown = {'zero-count': 'fails without delivering a byte (returns 0, error flag set: a directory, an I/O error at a buffer boundary)',
+                                 'short-count': 'fails after delivering part of the data (short count, error flag set)',
+                                 'no-data': 'fails (returns its end-of-input value, error flag set)'}[kind]
+                        rep.ob('R14.14', k + '-taken-for-end-of-file', False,
+                               '%s (%s): when %s() %s, a path of %s goes on and %s exactly as if the input had ended there - ferror() is not consulted on that path (it is asked only on other ways out of the read loop), '
+                               'so an input that cannot be read is compiled as an empty or truncated file and the driver exits 0'
+                               % (root, cg.witness(root), prim, shown, root, ('returns %r' % (out[1],) if isinstance(out[1], int) else 'returns its result') if out[0] == 'ret' else 'ends in %s()' % out[1]),
+                               where=_where(call, cu.name), facts={'path': _fmt_path(ctx, 12)})
+    if n_read == 0:
+        rep.undecided('R14.14', 'program:no-stream-read', 'no reachable function reads an input through a stdio call the model covers')
+    # ---------------------------------------------------------------- write side
+    def opens_for_write(c):
+        if c.callee() in ('fopen', 'fopen64', 'freopen'):
+            cr, dec = _creates_file(c)
+            return bool(cr) or not dec
+        return False
+    writer_open = {}
+    for fname, defs in cg.defs.items():
+        for (cu, fd) in defs:
+            if _is_file_ptr(_ret_type(cu, fname)) and any(c.kind == 'CallExpr' and opens_for_write(c) for c in fd.walk()):
+                writer_open.setdefault(fname, set()).add(cu.name)
+    n_write = 0
+    for fname in sorted(reach_main):
+        for (cu, fd) in cg.defs.get(fname, ()):
+            if fname in writer_open:
+                continue
+            openers = set()
+            for n in fd.walk():
+                src = None
+                if n.kind == 'VarDecl' and _is_file_ptr(n.dtype or n.type) and n.inner:
+                    src = n.inner[-1].strip_all()
+                elif n.kind == 'BinaryOperator' and n.opcode == '=' and len(n.inner) == 2 and _is_file_ptr(n.inner[0].strip_all().dtype or n.inner[0].strip_all().type):
+                    src = n.inner[1].strip_all()
+                if src is not None and src.kind == 'CallExpr' and (src.callee() in writer_open or opens_for_write(src)):
+                    openers.add(src.callee())
+            if not openers:
+                continue
+            key0 = '%s:%s' % (cu.name, fname)
+            w = _where(fd, cu.name)
+            foreign = [o for o in openers if o in writer_open and cu.name not in writer_open[o]]
+            if foreign:
+                rep.undecided('R14.15', key0 + ':opener-in-another-unit', '%s gets its stream from %s, which is defined in another unit' % (fname, ', '.join(sorted(foreign))), where=w)
+                continue
+            interp = (_file_param_fns(cu, terminators) | set(o for o in writer_open if cu.name in writer_open[o])) - {fname}
+            ps = paths_of(cu, fname, interp)
+            if isinstance(ps, str):
+                rep.undecided('R14.15', key0 + ':interpretation', ps, where=w)
+                continue
+            n_write += 1
+            escapes = _escaping_streams(fd)
+            results_used = set()
+            for f2 in [fname] + sorted(interp):
+                for (cu3, fd3) in cg.defs.get(f2, ()):
+                    if cu3 is cu:
+                        results_used |= _write_results_used(fd3)
+            good = [(ctx, out) for ctx, out in ps if all_good(ctx)]
+            groups = {}
+            left = {}
+            n_streams = 0
+            for ctx, out in ps:
+                for r in L.streams_of(ctx):
+                    if r['kind'] != 'w':
+                        continue
+                    if r['std']:
+                        origin = r['origin']
+                    else:
+                        site = L.outer_site(ctx, r['event']) if r['event'] is not None else None
+                        origin = site[0] if site and site[0] else r['origin']
+                        n_streams += 1
+                    if r['wfail']:
+                        groups.setdefault((origin, r['wfail']), []).append((ctx, out))
+                    elif not r['std'] and out[0] == 'ret' and not r['closed'] and r['dirty']:
+                        left.setdefault(origin, []).append((ctx, out))
+            if n_streams == 0:
+                rep.undecided('R14.15', key0 + ':no-file-stream-on-any-path', 'no explored path of %s opens a file for writing' % fname, where=w)
+                continue
+            for (origin, how), failed in sorted(groups.items()):
+                verdict, info = _failure_verdict(failed, good)
+                k = '%s:stream-from-%s:%s-failure' % (key0, origin, how)
+                if verdict == 'undecided':
+                    rep.undecided('R14.15', k, info, where=w)
+                elif verdict == 'fatal':
+                    rep.ob('R14.15', k + '-is-fatal', True, '', where=w)
+                elif verdict == 'reported':
+                    rep.ob('R14.15', k + '-reported-to-caller', True, '', where=w, facts={'failure value': repr(info)})
+                    chain_work.append((fname, info))
+                else:
+                    ctx, out = info
+                    shown = {'earlier-write': 'a write to the stream has failed before (error flag set, e.g. the disk filled up while a full buffer was written out) and the remaining flush works, only ferror() can tell: it is not asked on this path',
+                             'fflush': 'fflush() cannot write the buffered data (disk full, quota, I/O error), its result is not used on this path',
+                             'fclose': 'nothing flushed the stream before fclose(), so the buffered data (everything, for an output smaller than one stdio buffer) is written inside fclose(); that write fails '
+                                       '(disk full, quota, I/O error) and the result of fclose() is not used'}[how]
+                    if how == 'earlier-write' and results_used:
+                        rep.undecided('R14.15', k, '%s does not ask ferror() on some path, but uses the result of %s: whether every write to the stream is checked that way is not decided'
+                                      % (fname, ', '.join(sorted(results_used))), where=w)
+                        continue
+                    rep.ob('R14.15', k + '-ignored', False,
+                           '%s (%s) writes %s: %s - the function %s as after a complete write: the output is empty or truncated, the cc1 process '
+                           'exits 0 and the driver assembles/links it or reports success'
+                           % (fname, cg.witness(fname), ('to ' + origin) if origin in L.STD_STREAMS else 'a file through the stream it got from %s()' % origin, shown,
+                              ('returns' if out[0] == 'ret' else 'ends in %s()' % out[1])),
+                           where=w, facts={'path': _fmt_path(ctx, 12)})
+            for origin, lst in sorted(left.items()):
+                k = '%s:stream-from-%s:returns-with-unflushed-data' % (key0, origin)
+                if escapes:
+                    rep.undecided('R14.15', k, '%s returns with the stream still open and unflushed on some path, and stores or returns a FILE * somewhere: who finishes the stream is not followed' % fname, where=w)
+                    continue
+                rep.ob('R14.15', k, False,
+                       '%s (%s) returns on some path without having flushed or closed the stream it got from %s(): the buffered data is written when the process exits, where nobody examines the result - '
+                       'a full disk gives a truncated file and exit status 0' % (fname, cg.witness(fname), origin), where=w, facts={'path': _fmt_path(lst[0][0], 12)})
+            if not groups:
+                rep.undecided('R14.15', key0 + ':no-failing-write-explored', 'no explored path of %s examines, flushes or closes the file stream it opened' % fname, where=w)
+    if n_write == 0:
+        rep.undecided('R14.15', 'program:no-file-stream-written', 'no reachable function opens a file stream for writing: the output-writing anchor vanished')
+    # ---------------------------------------------------------------- callers of functions that report the failure by a value
+    if chain_work:
+        done = facts.get('r149_done')
+        if done is None:
+            done = set()
+        _r149_chain(P, rep, cg, reach_main, chain_work, done)
+
+
 # ================================================================== R14.9 ===
 # "unreadable input => diagnostic, non-zero exit": failure of opening an input must not be swallowed anywhere
 # on the way up the call chain.  Decided per function and per call site: the function is interpreted with
 # exactly that one call failing (returning its failure value); on every such path it must either end the
 # process with a non-zero status or hand a distinguishable failure value to ITS caller, whose call sites are
 # then examined the same way.
-def r149(P, rep, cg, reach_main):
+def r149(P, rep, cg, reach_main, facts=None):
     rep.rule('R14.9', 'when opening an input file for reading fails, every function on the call chain either ends the process through a diagnostic (non-zero exit) '
                       'or returns a failure value that none of its successful paths returns, and every caller of such a function does the same: '
                       'the failure is never dropped (a translation unit compiled without a file it was told to read, exit 0)', floor=3)
@@ -1987,12 +2377,24 @@ def r149(P, rep, cg, reach_main):
         rep.undecided('R14.9', 'tokenize.c:input-open', 'no reachable fopen(..., "r") found: the input-reading anchor vanished')
         return
     done = set()
+    if facts is not None:
+        facts['r149_done'] = done
+    n_fatal = _r149_chain(P, rep, cg, reach_main, work, done)
+    if n_fatal == 0:
+        rep.undecided('R14.9', 'tokenize.c:input-open:no-fatal-handler', 'no call chain from an input open ends in a diagnostic')
+
+
+def _r149_chain(P, rep, cg, reach_main, work, done):
+    """work items (G, c): the function G reports a failure to its caller by returning the constant c; every call site of G is
+    decided, and a caller that passes the failure on becomes a work item itself.  -> number of call sites where it is fatal"""
+    terminators = set(L.HARD_EXIT) | set(L.SOFT_EXIT) | set(L.ERROR_FNS) | {'__assert_fail'}
+    alldefs = set(cg.defs)
     n_fatal = 0
     while work:
         G, c = work.pop(0)
-        if G in done:
+        if (G, c) in done:
             continue
-        done.add(G)
+        done.add((G, c))
         if G in cg.refs and any(f in reach_main for (_, f, _) in cg.refs[G]):
             rep.undecided('R14.9', '%s:%s:address-taken' % (cg.refs[G][0][0].name, G), 'the address of %s, which reports input-open failures by its return value, is taken: indirect callers are not followed' % G)
         for (cu, H, call) in cg.sites.get(G, ()):
@@ -2021,8 +2423,7 @@ def r149(P, rep, cg, reach_main):
                        'the unreadable input is silently left out, compilation continues and can end with exit status 0 and an output file'
                        % (G, ', '.join(a.src() for a in call.args()[:1]), ' (returns %r)' % (c,) if G not in ('fopen', 'fopen64') else '', H, info),
                        where=wh)
-    if n_fatal == 0:
-        rep.undecided('R14.9', 'tokenize.c:input-open:no-fatal-handler', 'no call chain from an input open ends in a diagnostic')
+    return n_fatal
 
 
 class _Fail(int):
@@ -2079,6 +2480,7 @@ def _open_failure_outcome(P, cg, cu, H, G, site, c, alldefs, terminators):
         glob[name] = (lambda nm: (lambda ctx: Obj(None, lazy=True, label='g:' + nm)))(name)
     try:
         it = L.make_interp(P, cu, opaque=opaque, extra_models=models, globals_=glob, loop_limit=1)
+        it.forever_limit = 2        # (a `for (;;)` that is left by a test inside: as many iterations as a generic loop gets)
         L.slice_loops(it, cu, terminators | {G})
         paths = it.explore(H, lambda ctx: [], max_paths=4000)
     except AnalysisBroken as e:
